@@ -6,7 +6,10 @@
 
      column = (format, status, [text pointer, timestamp,] Go value)
      leg_write : what ParamsPackage.WriteTo produces for columns whose FieldData carry the Go values
-                 (fieldDataBase.writeTo: Bytes(endian, value, fmt.MaxLength()), length prefix, data)
+                 (fieldDataBase.writeTo: Bytes(endian, value, fmt.MaxLength()), length prefix, data).
+                 For text-pointer columns (TEXT/IMAGE/UNITEXT/XML), which a client never sends, leg_write is the
+                 layout of a reference-encoded row field (pointer, timestamp, 4-byte length, enc_value of the value),
+                 NOT a model of fieldDataTxtPtr.WriteTo; the harness never runs the client direction on them.
      leg_read  : LookupPackage + LastPkg(format package) + ReadFrom on the bytes after the token, then
                  FieldData.Value() of every field (fieldDataBase.readFrom runs GoValue on the data;
                  fieldDataPrecisionScale.ReadFrom copies precision/scale from the format;
